@@ -5,6 +5,7 @@ import MesonModel.Rewrite.Compare
 import MesonModel.Rewrite.ListEdit
 import MesonModel.Rewrite.PathMatch
 import MesonModel.Rewrite.Script
+import MesonModel.Rewrite.ParenTable
 /-
 C17 — rewriter edits are local and keep everything else meaning the same (theorems over the model).
 
@@ -20,9 +21,11 @@ C17 — rewriter edits are local and keep everything else meaning the same (theo
   statement holds (`escape_roundtrip_live`). Before that repair the table mapped the quote to itself:
   the conditional `escape_roundtrip_counterexample` / `escape_roundtrip_partial` still compile and
   describe that state (they become the operative ones again if the entry regresses).
-* printer: counterexamples to `parse (astPrint e) = erase e` for `not (a and b)`, `(a or b) and c`,
-  `(a + b).m()`, `-(-x)` (read back as a different tree); the arithmetic fragment is checked on samples here and per run by the
-  `parse-printed` correspondence stream (no universally quantified proof).
+* printer: the full operator table (every binary operator on either side, `not`, unary minus, method call, index,
+  ternary condition × every operand shape): operands written in parentheses are always read back
+  (`written_parens_read_back`, /repo b64ff56); for operands without a `ParenthesizedNode` the text is read back exactly
+  when `needsParens → emitsParens` (`paren_table_exact`), with the arithmetic positions where the live rule falls short
+  listed (`arithmetic_missing_parens`). No universally quantified print/parse proof over all trees.
 -/
 namespace MesonModel.Props.C17
 open MesonModel.Rewrite MesonModel.Generated
@@ -301,21 +304,39 @@ def astPrint_full_statement : Prop := ∀ e : Expr, e.opsKnown = true → roundt
 
 def idx (c : Char) : Expr := .id 0 [c]
 
-/-- `not (a and b)` is printed as `not a and b` = `(not a) and b` -/
-theorem astPrint_not_paren_counterexample :
-    ¬ roundtrip (.not 0 (.paren 0 (.and 0 (idx 'a') (idx 'b')))) := by decide
+/-! Since /repo b64ff56 a `ParenthesizedNode` prints its parentheses: what the user wrote in parentheses is read back
+as the same tree. The former counterexamples (`not (a and b)`, `(a or b) and c`, `(a + b).m()`, `-(-x)`) now round-trip: -/
 
-/-- `(a or b) and c` is printed as `a or b and c` = `a or (b and c)` -/
-theorem astPrint_and_paren_counterexample :
-    ¬ roundtrip (.and 0 (.paren 0 (.or 0 (idx 'a') (idx 'b'))) (idx 'c')) := by decide
+theorem astPrint_written_parens_samples :
+    roundtrip (.not 0 (.paren 0 (.and 0 (idx 'a') (idx 'b')))) ∧
+    roundtrip (.and 0 (.paren 0 (.or 0 (idx 'a') (idx 'b'))) (idx 'c')) ∧
+    roundtrip (.method 0 (.paren 0 (.arith 0 ['+'] ['+'] (idx 'a') (idx 'b'))) ['m'] 0 .nil) ∧
+    roundtrip (.uminus 0 (.paren 0 (.uminus 0 (idx 'x')))) := by decide
 
-/-- `(a + b).m()` is printed as `a + b.m()` -/
-theorem astPrint_method_paren_counterexample :
-    ¬ roundtrip (.method 0 (.paren 0 (.arith 0 ['+'] ['+'] (idx 'a') (idx 'b'))) ['m'] 0 .nil) := by decide
+/-- the whole operator table with the operand WRITTEN in parentheses: every position (either side of every binary
+operator, operand of `not` / unary minus / method call / index, condition of a ternary) × every operand shape is read
+back as the same tree -/
+theorem written_parens_read_back :
+    ∀ s ∈ Slot.all, ∀ i ∈ Inner.all, readsBack (s.place (.paren 0 i.tree)) = true := by decide +kernel
 
-/-- `-(-x)` is printed as `- - x`, which the parser reads as `(-<nothing>) - x` -/
-theorem astPrint_uminus_counterexample :
-    ¬ roundtrip (.uminus 0 (.paren 0 (.uminus 0 (idx 'x')))) := by decide
+/-- the whole table for operands NOT written in parentheses (nodes the rewriter builds itself): the printed text is read
+back as the same tree exactly when the parentheses the grammar needs (`needsParens`, from the precedence table and the
+associativity of `Parser.e1 … e9`) are the ones `maybe_parentheses` emits (`emitsParens`, the model of the live rule) -/
+theorem paren_table_exact :
+    ∀ s ∈ Slot.all, ∀ i ∈ Inner.all,
+      readsBack (s.place i.tree) = (!needsParens s i || emitsParens s i) := by decide +kernel
+
+/-- the printer never emits parentheses the grammar does not need -/
+theorem no_superfluous_parens : ∀ s ∈ Slot.all, ∀ i ∈ Inner.all, emitsParens s i = true → needsParens s i = true := by
+  decide +kernel
+
+/-- operands of an ArithmeticNode — the only place the rewriter itself builds operator nodes — where the rule leaves the
+needed parentheses out: `a + (b + c)`, `a + (b - c)`, `a * (b * c)` (same value re-associated) and `a * (b / c)`,
+`a * (b % c)` (DIFFERENT value: recorded findings `printer:parens:*:/:right`, `printer:parens:*:%:right`) -/
+theorem arithmetic_missing_parens :
+    missingParens.filter (fun p => match p.1 with | .left o | .right o => o.isArith | _ => false)
+      = [(.right .add, .bin .add), (.right .add, .bin .sub), (.right .mul, .bin .mul), (.right .mul, .bin .div),
+         (.right .mul, .bin .mod)] := by decide +kernel
 
 /-- a string holding a quote is not read back while the table maps the quote to itself (state before fbd2b8c) -/
 theorem astPrint_quote_counterexample :
@@ -324,10 +345,13 @@ theorem astPrint_quote_counterexample :
 /-- … and IS read back with the live table -/
 theorem astPrint_quote_roundtrip_live : roundtrip (.str 0 ['i', 't', '\'', 's'] false false) := by decide
 
-/-- the full print/parse statement is still false of the code: parentheses are dropped (independent of the table) -/
+/-- the print/parse statement over ALL trees is false: a tree that needs parentheses but carries no `ParenthesizedNode`
+(the parser never builds one; only code constructing nodes can) under a non-arithmetic operator is printed without them -/
 theorem astPrint_full_statement_false : ¬ astPrint_full_statement := by
   intro hall
-  exact astPrint_not_paren_counterexample (hall _ (by decide))
+  have h : roundtrip (.not 0 (.and 0 (idx 'a') (idx 'b'))) := hall _ (by decide)
+  revert h
+  decide
 
 /-- samples of the fragment where the printer is right: atoms, calls, arithmetic with the parentheses it re-creates -/
 theorem astPrint_roundtrip_samples :
